@@ -121,8 +121,10 @@ def permute_maps(rsmi, rng, how="random"):
 
 
 def template_variants(rsmi, rng, k=2):
+    """k = 1: reverse + one random permutation; k >= 2: reverse, cyclic shift and k - 1 random permutations"""
     out, seen = [], {rsmi}
-    for how in (["reverse", "shift"] + ["random"] * k)[: k + 1] if k else []:
+    hows = [] if not k else (["reverse", "random"] if k == 1 else ["reverse", "shift"] + ["random"] * (k - 1))
+    for how in hows:
         r = permute_maps(rsmi, rng, how)
         if r and r[0] not in seen:
             seen.add(r[0])
@@ -159,13 +161,14 @@ HAND = [
 ]
 
 
-def hand_pairs():
+def hand_pairs(full_all=True):
+    """full_all=False (quick tier): the full-ITS form of a hand-made rule only on its first substrate"""
     out = []
     for name, r, subs, dirs, modes in HAND:
         for inv in dirs:
             for mode in modes:
                 for core in (True, False):
-                    for sub in subs:
+                    for sub in (subs if (core or full_all) else subs[:1]):
                         out.append(dict(kind="hand", name="hand:%s:%s:%s:%s:%s" % (name, "centre" if core else "full", "bwd" if inv else "fwd", mode, sub),
                                         tpl=dict(rsmi=r, core=core), sub=sub, invert=inv, mode=mode))
     return out
